@@ -68,7 +68,14 @@ func appendIfNotIn(ids []*Identity, chk *Identity) []*Identity {
 // addChildren adds identity r and all of its children to ids
 // deterministically.
 func addChildren(r *Identity, ids []*Identity) []*Identity {
-	ids = appendIfNotIn(ids, r)
+	for _, id := range ids {
+		if id == r {
+			// r was collected before, and its children with it. Not
+			// descending again also ends the walk on a derivation cycle.
+			return ids
+		}
+	}
+	ids = append(ids, r)
 
 	// Iterate through the values of r.
 	for _, ch := range r.Values {
@@ -181,6 +188,12 @@ func (ms *Modules) resolveIdentities() []error {
 		newValues := []*Identity{}
 		for _, j := range i.Identity.Values {
 			newValues = addChildren(j, newValues)
+		}
+		for _, v := range newValues {
+			if v == i.Identity {
+				errs = append(errs, fmt.Errorf("%s: identity %s is derived from itself", Source(i.Identity), i.Identity.Name))
+				break
+			}
 		}
 		sort.SliceStable(newValues, func(j, k int) bool {
 			return newValues[j].Name < newValues[k].Name
